@@ -1898,9 +1898,14 @@ void MatrixColumnMinMax(matrix* m, size_t col, double* min, double* max)
 {
   if(m->row > 0 && col < m->col ){
     size_t i;
+    size_t first = 0;
     double a;
-    (*min) = (*max) = m->data[0][col];
-    for(i = 1; i < m->row; i++){
+    /* seed with the first value that is not MISSING */
+    while(first+1 < m->row && FLOAT_EQ(m->data[first][col], MISSING, 1e-1)){
+      first++;
+    }
+    (*min) = (*max) = m->data[first][col];
+    for(i = first+1; i < m->row; i++){
       a = m->data[i][col];
       if(FLOAT_EQ(a, MISSING, 1e-1)){
         continue;
